@@ -27,7 +27,23 @@
 
 namespace bj = boost::json;
 
+#if defined(__SANITIZE_ADDRESS__)
+#define VF_HAS_ASAN 1
+#elif defined(__has_feature)
+#if __has_feature(address_sanitizer)
+#define VF_HAS_ASAN 1
+#endif
+#endif
+#ifdef VF_HAS_ASAN
+extern "C" void __asan_set_error_report_callback(void (*)(const char*));
+#endif
+
 namespace vf {
+
+// AddressSanitizer reports are captured (build with -fsanitize-recover=address, run with ASAN_OPTIONS=halt_on_error=0)
+// and attached to the step during which they were raised
+inline std::string& san_report() { static std::string s; return s; }
+inline void san_callback(const char* r) { if (san_report().size() < 1500) san_report() += std::string(r).substr(0, 700); }
 
 constexpr std::int64_t INF_CODE = 1000000;  // +infinity in the models
 
@@ -211,13 +227,20 @@ bool check_step(Model& m, const bj::object& act, const bj::object& got_act, cons
     auto it = ca.as_object().find(p.key());
     if (it == ca.as_object().end()) {
       // an exception the specification does not announce is a deviation of its own
-      if (p.key() == "exception") d.push_back({"act.exception", nullptr, p.value()});
+      if (p.key() == "exception" || p.key() == "overread") d.push_back({std::string("act.") + std::string(p.key()), nullptr, p.value()});
       continue;
     }
     diff(it->value(), p.value(), std::string("act.") + std::string(p.key()), d);
   }
   set_expected(m, expected_obs.as_object());
   bj::object obs = m.observe();
+  if (!san_report().empty()) {   // memory error reported by the sanitizer during this step (operation or observation)
+    std::string rep = san_report();
+    san_report().clear();
+    std::string first = rep.substr(0, rep.find('\n'));
+    std::size_t at = rep.find(" in ");
+    d.push_back({"sanitizer", nullptr, bj::value(first + (at != std::string::npos ? " |" + rep.substr(at, 160) : ""))});
+  }
   bj::object eo = expected_obs.as_object();  // already canonical (replay_setup)
   m.mask(eo);
   m.mask(obs);
@@ -349,6 +372,9 @@ inline ReplayCtx replay_setup(int argc, char** argv) {
   if (argc >= 6) { ctx.shard = std::atoi(argv[4]); ctx.nshards = std::atoi(argv[5]); }
   crash_ctx().out = ctx.out;
   install_crash_handlers();
+#ifdef VF_HAS_ASAN
+  __asan_set_error_report_callback(san_callback);
+#endif
   return ctx;
 }
 
